@@ -19,7 +19,15 @@
 (*   mutex.Unlock          delete my key (-> UnlockDelete), deferred m.lock.Unlock()             *)
 (*                                                                        -> UnlockLocal         *)
 (*                                                                                              *)
-(* etcd and its lease keep-alive are trusted (no lease expiry: the lease TTL is 285 years).      *)
+(* etcd is trusted and no lease expires (the lease TTL is 285 years).  What does happen is a      *)
+(* failed keep-alive: cluster.keepAliveLease then grants the member a NEW lease (grantNewLease,  *)
+(* -> Regrant) and leaves the old one alone.  The member's session was created on the lease the   *)
+(* member had at that time and cluster.getSession returns the cached session whatever the        *)
+(* member's current lease is: lock keys stay on the first lease (generation 1) and a re-grant     *)
+(* does not touch a held mutex.  RenewSession = TRUE models the alternative - getSession closes   *)
+(* a session that is not on the current lease (which revokes that lease and deletes its keys)    *)
+(* and opens a new one, cluster.Mutex then returns new handle objects - to show that Mutex is    *)
+(* sensitive to it; on the real code it is decided by the scenarios "L" of the trace validation. *)
 (*                                                                                              *)
 (* Configurations (constants): (A) one handle object per member -- the way api.Server uses it -- *)
 (* shared by several goroutines; (B) two handle objects of the same member for the same name     *)
@@ -32,17 +40,28 @@ CONSTANTS Procs,       \* goroutines (strings)
           MemOf,       \* [Handles -> Members]
           HandleOf,    \* [Procs -> Handles]: the handle a goroutine uses
           MaxRounds,   \* Lock calls per goroutine (bounds the model)
-          MaxTimeouts  \* ctx deadlines that fire in a behaviour (bounds the model)
+          MaxTimeouts, \* ctx deadlines that fire in a behaviour (bounds the model)
+          MaxRegrants, \* lease re-grants (failed keep-alives) in a behaviour (bounds the model)
+          RenewSession \* BOOLEAN: FALSE = the code (the session is created once per member)
+
+(* A goroutine obtains its handle with cluster.Mutex(name) before every Lock call (CallLock): the  *)
+(* handle object belongs to the session of that moment.  Gens numbers a member's leases; handle   *)
+(* objects and lock keys are indexed by (handle, generation) and (member, generation).           *)
+Gens == 1..(MaxRegrants + 1)
 
 VARIABLES pc,          \* per goroutine, see below
-          localHeld,   \* per handle: its sync.Mutex is locked
-          key,         \* per member: createRevision of the etcd key name/<lease>, 0 = absent
+          localHeld,   \* per handle object <<h, g>>: its sync.Mutex is locked
+          key,         \* per <<member, g>>: createRevision of the etcd key name/<lease g of the member>, 0 = absent
           rev,         \* etcd store revision
-          myRev,       \* per handle: concurrency.Mutex.myRev (-1 = none)
+          myRev,       \* per handle object: concurrency.Mutex.myRev (-1 = none)
           rounds,      \* per goroutine: Lock calls made
-          timeouts     \* deadlines fired so far
+          timeouts,    \* deadlines fired so far
+          lease,       \* per member: generation of its current lease (cluster.lease)
+          sgen,        \* per member: generation of the lease its session is on (cluster.session)
+          hgen,        \* per goroutine: generation of the handle object it uses for the current call
+          regrants     \* re-grants so far
 
-vars == <<pc, localHeld, key, rev, myRev, rounds, timeouts>>
+vars == <<pc, localHeld, key, rev, myRev, rounds, timeouts, lease, sgen, hgen, regrants>>
 
 (* pc: "idle"  not in a call, not holding            "local" Lock called, blocked on m.lock        *)
 (*     "acq"   owns m.lock, about to run the txn     "wait"  key exists, waitDeletes               *)
@@ -52,101 +71,121 @@ vars == <<pc, localHeld, key, rev, myRev, rounds, timeouts>>
 
 H(p) == HandleOf[p]
 M(p) == MemOf[HandleOf[p]]
+HG(p) == <<HandleOf[p], hgen[p]>>            \* the handle object of p's current call
+KG(p) == <<MemOf[HandleOf[p]], hgen[p]>>     \* the lock key that handle object uses
 
 Min(S) == CHOOSE x \in S : \A y \in S : x <= y
 
 Init ==
     /\ pc = [p \in Procs |-> "idle"]
-    /\ localHeld = [h \in Handles |-> FALSE]
-    /\ key = [m \in Members |-> 0]
+    /\ localHeld = [hg \in Handles \X Gens |-> FALSE]
+    /\ key = [mg \in Members \X Gens |-> 0]
     /\ rev = 1
-    /\ myRev = [h \in Handles |-> -1]
+    /\ myRev = [hg \in Handles \X Gens |-> -1]
     /\ rounds = [p \in Procs |-> 0]
     /\ timeouts = 0
+    /\ lease = [m \in Members |-> 1] /\ sgen = [m \in Members |-> 1]
+    /\ hgen = [p \in Procs |-> 1] /\ regrants = 0
 
+(* keepAliveLease: KeepAliveOnce failed -> grantNewLease.  Nothing else happens. *)
+Regrant(m) ==
+    /\ regrants < MaxRegrants
+    /\ lease' = [lease EXCEPT ![m] = @ + 1] /\ regrants' = regrants + 1
+    /\ UNCHANGED <<pc, localHeld, key, rev, myRev, rounds, timeouts, sgen, hgen>>
+
+(* h := cluster.Mutex(name) - getSession, then the member's mutex object for (name, session) - ; h.Lock() *)
 CallLock(p) ==
     /\ pc[p] = "idle" /\ rounds[p] < MaxRounds
+    /\ LET m == M(p)
+           renew == RenewSession /\ sgen[m] # lease[m]
+           g == IF renew THEN lease[m] ELSE sgen[m]
+       IN /\ sgen' = [sgen EXCEPT ![m] = g]
+          /\ hgen' = [hgen EXCEPT ![p] = g]
+          /\ IF renew /\ key[<<m, sgen[m]>>] > 0      \* session.Close() revokes the old lease: its keys are deleted
+             THEN key' = [key EXCEPT ![<<m, sgen[m]>>] = 0] /\ rev' = rev + 1
+             ELSE UNCHANGED <<key, rev>>
     /\ pc' = [pc EXCEPT ![p] = "local"] /\ rounds' = [rounds EXCEPT ![p] = @ + 1]
-    /\ UNCHANGED <<localHeld, key, rev, myRev, timeouts>>
+    /\ UNCHANGED <<localHeld, myRev, timeouts, lease, regrants>>
 
 LocalLock(p) ==
-    /\ pc[p] = "local" /\ ~localHeld[H(p)]
-    /\ localHeld' = [localHeld EXCEPT ![H(p)] = TRUE]
+    /\ pc[p] = "local" /\ ~localHeld[HG(p)]
+    /\ localHeld' = [localHeld EXCEPT ![HG(p)] = TRUE]
     /\ pc' = [pc EXCEPT ![p] = "acq"]
-    /\ UNCHANGED <<key, rev, myRev, rounds, timeouts>>
+    /\ UNCHANGED <<key, rev, myRev, rounds, timeouts, lease, sgen, hgen, regrants>>
 
 (* the tryAcquire transaction: If(createRevision(myKey) = 0).Then(put, getOwner).Else(get, getOwner) *)
 TryAcquire(p) ==
     /\ pc[p] = "acq"
-    /\ LET m  == M(p)
-           k2 == IF key[m] = 0 THEN [key EXCEPT ![m] = rev + 1] ELSE key
-           mine == k2[m]
-           owner == Min({k2[x] : x \in {y \in Members : k2[y] > 0}})
+    /\ LET k  == KG(p)
+           k2 == IF key[k] = 0 THEN [key EXCEPT ![k] = rev + 1] ELSE key
+           mine == k2[k]
+           owner == Min({k2[x] : x \in {y \in Members \X Gens : k2[y] > 0}})
        IN /\ key' = k2
-          /\ rev' = IF key[m] = 0 THEN rev + 1 ELSE rev
-          /\ myRev' = [myRev EXCEPT ![H(p)] = mine]
+          /\ rev' = IF key[k] = 0 THEN rev + 1 ELSE rev
+          /\ myRev' = [myRev EXCEPT ![HG(p)] = mine]
           /\ pc' = [pc EXCEPT ![p] = IF owner = mine THEN "held" ELSE "wait"]
-    /\ UNCHANGED <<localHeld, rounds, timeouts>>
+    /\ UNCHANGED <<localHeld, rounds, timeouts, lease, sgen, hgen, regrants>>
 
 (* the context deadline expires before the transaction is sent / committed *)
 AcqTimeout(p) ==
     /\ pc[p] = "acq" /\ timeouts < MaxTimeouts
     /\ pc' = [pc EXCEPT ![p] = "fail"] /\ timeouts' = timeouts + 1
-    /\ UNCHANGED <<localHeld, key, rev, myRev, rounds>>
+    /\ UNCHANGED <<localHeld, key, rev, myRev, rounds, lease, sgen, hgen, regrants>>
 
 (* waitDeletes(pfx, myRev-1): no key with a smaller create revision is left *)
 WaitDone(p) ==
     /\ pc[p] = "wait"
-    /\ \A x \in Members : ~(key[x] > 0 /\ key[x] < myRev[H(p)])
+    /\ \A x \in Members \X Gens : ~(key[x] > 0 /\ key[x] < myRev[HG(p)])
     /\ pc' = [pc EXCEPT ![p] = "check"]
-    /\ UNCHANGED <<localHeld, key, rev, myRev, rounds, timeouts>>
+    /\ UNCHANGED <<localHeld, key, rev, myRev, rounds, timeouts, lease, sgen, hgen, regrants>>
 
 (* Get(myKey): only existence is checked *)
 Check(p) ==
     /\ pc[p] = "check"
-    /\ pc' = [pc EXCEPT ![p] = IF key[M(p)] > 0 THEN "held" ELSE "fail"]
-    /\ UNCHANGED <<localHeld, key, rev, myRev, rounds, timeouts>>
+    /\ pc' = [pc EXCEPT ![p] = IF key[KG(p)] > 0 THEN "held" ELSE "fail"]
+    /\ UNCHANGED <<localHeld, key, rev, myRev, rounds, timeouts, lease, sgen, hgen, regrants>>
 
 DeleteKey(p) ==
-    /\ key' = [key EXCEPT ![M(p)] = 0]
-    /\ rev' = IF key[M(p)] > 0 THEN rev + 1 ELSE rev
-    /\ myRev' = [myRev EXCEPT ![H(p)] = -1]
+    /\ key' = [key EXCEPT ![KG(p)] = 0]
+    /\ rev' = IF key[KG(p)] > 0 THEN rev + 1 ELSE rev
+    /\ myRev' = [myRev EXCEPT ![HG(p)] = -1]
 
 (* ctx deadline while waiting: m.Unlock(client.Ctx()) deletes the key, Lock returns the error *)
 Timeout(p) ==
     /\ pc[p] \in {"wait", "check"} /\ timeouts < MaxTimeouts
     /\ DeleteKey(p)
     /\ pc' = [pc EXCEPT ![p] = "fail"] /\ timeouts' = timeouts + 1
-    /\ UNCHANGED <<localHeld, rounds>>
+    /\ UNCHANGED <<localHeld, rounds, lease, sgen, hgen, regrants>>
 
 (* mutex.Lock's deferred function: `if panicked || err != nil { m.lock.Unlock() }` *)
 FailReturn(p) ==
     /\ pc[p] = "fail"
-    /\ localHeld' = [localHeld EXCEPT ![H(p)] = FALSE]
+    /\ localHeld' = [localHeld EXCEPT ![HG(p)] = FALSE]
     /\ pc' = [pc EXCEPT ![p] = "idle"]
-    /\ UNCHANGED <<key, rev, myRev, rounds, timeouts>>
+    /\ UNCHANGED <<key, rev, myRev, rounds, timeouts, lease, sgen, hgen, regrants>>
 
 CallUnlock(p) ==
     /\ pc[p] = "held"
     /\ pc' = [pc EXCEPT ![p] = "rel"]
-    /\ UNCHANGED <<localHeld, key, rev, myRev, rounds, timeouts>>
+    /\ UNCHANGED <<localHeld, key, rev, myRev, rounds, timeouts, lease, sgen, hgen, regrants>>
 
 UnlockDelete(p) ==
     /\ pc[p] = "rel"
     /\ DeleteKey(p)
     /\ pc' = [pc EXCEPT ![p] = "rel2"]
-    /\ UNCHANGED <<localHeld, rounds, timeouts>>
+    /\ UNCHANGED <<localHeld, rounds, timeouts, lease, sgen, hgen, regrants>>
 
 UnlockLocal(p) ==
     /\ pc[p] = "rel2"
-    /\ localHeld' = [localHeld EXCEPT ![H(p)] = FALSE]
+    /\ localHeld' = [localHeld EXCEPT ![HG(p)] = FALSE]
     /\ pc' = [pc EXCEPT ![p] = "idle"]
-    /\ UNCHANGED <<key, rev, myRev, rounds, timeouts>>
+    /\ UNCHANGED <<key, rev, myRev, rounds, timeouts, lease, sgen, hgen, regrants>>
 
 Progress(p) == \/ LocalLock(p) \/ TryAcquire(p) \/ WaitDone(p) \/ Check(p) \/ FailReturn(p)
                \/ CallUnlock(p) \/ UnlockDelete(p) \/ UnlockLocal(p)
 
-Next == \E p \in Procs : CallLock(p) \/ Progress(p) \/ AcqTimeout(p) \/ Timeout(p)
+Next == \/ \E p \in Procs : CallLock(p) \/ Progress(p) \/ AcqTimeout(p) \/ Timeout(p)
+        \/ \E m \in Members : Regrant(m)
 
 Spec == Init /\ [][Next]_vars
 (* every step of the code and every holder's Unlock eventually happens; deadlines may or may not fire *)
@@ -155,8 +194,10 @@ FairSpec == Spec /\ \A p \in Procs : WF_vars(Progress(p))
 -----------------------------------------------------------------------------
 TypeOK ==
     /\ pc \in [Procs -> {"idle", "local", "acq", "wait", "check", "held", "fail", "rel", "rel2"}]
-    /\ localHeld \in [Handles -> BOOLEAN]
-    /\ \A m \in Members : key[m] >= 0 /\ key[m] <= rev
+    /\ localHeld \in [Handles \X Gens -> BOOLEAN]
+    /\ \A mg \in Members \X Gens : key[mg] >= 0 /\ key[mg] <= rev
+    /\ \A m \in Members : lease[m] \in Gens /\ sgen[m] \in Gens /\ sgen[m] <= lease[m]
+    /\ \A p \in Procs : hgen[p] \in Gens
 
 (* C18, first clause: at most one holder (between the return of Lock and the call of Unlock) *)
 Holders == {p \in Procs : pc[p] = "held"}
@@ -165,11 +206,11 @@ Mutex == Cardinality(Holders) <= 1
 (* C18, second clause: a failed or timed-out acquisition leaves nothing behind.  Every locked     *)
 (* sync.Mutex and every etcd key is accounted for by a call in progress or a holder ...           *)
 NoResidue ==
-    /\ \A h \in Handles : localHeld[h] => \E p \in Procs : H(p) = h /\ pc[p] \notin {"idle", "local"}
-    /\ \A m \in Members : key[m] > 0 => \E p \in Procs : M(p) = m /\ pc[p] \in {"wait", "check", "held", "rel"}
+    /\ \A hg \in Handles \X Gens : localHeld[hg] => \E p \in Procs : HG(p) = hg /\ pc[p] \notin {"idle", "local"}
+    /\ \A mg \in Members \X Gens : key[mg] > 0 => \E p \in Procs : KG(p) = mg /\ pc[p] \in {"wait", "check", "held", "rel"}
 (* ... hence at quiescence the lock is free *)
 QuiescentFree ==
-    (\A p \in Procs : pc[p] = "idle") => (\A m \in Members : key[m] = 0) /\ (\A h \in Handles : ~localHeld[h])
+    (\A p \in Procs : pc[p] = "idle") => (\A mg \in Members \X Gens : key[mg] = 0) /\ (\A hg \in Handles \X Gens : ~localHeld[hg])
 
 (* every Lock call returns (granted or refused), whatever failed before *)
 Terminates == \A p \in Procs : (pc[p] = "local") ~> (pc[p] \in {"held", "idle"})
